@@ -226,6 +226,18 @@ func genFormatCase(r *rand.Rand) Case {
 		if _, ok := goKey(kind, m); ok && m < 1<<40 {
 			ops = append(ops, fmt.Sprintf("cmp %s %d %d", kind, n, m))
 		}
+		if modelKind(kind) == "u64" {
+			// partners anywhere in the unsigned range, in particular on both sides of 2^63
+			a, b := r.Uint64()>>uint(r.Intn(64)), r.Uint64()>>uint(r.Intn(64))
+			if r.Intn(2) == 0 {
+				a |= 1 << 63
+			}
+			_, oka := goKey(kind, a)
+			_, okb := goKey(kind, b)
+			if oka && okb {
+				ops = append(ops, fmt.Sprintf("cmp %s %d %d", kind, a, b), fmt.Sprintf("cmp %s %d %d", kind, b, a))
+			}
+		}
 	}
 	ops = append(ops, "defaults")
 	return Case{Cfg{BF: 16, Fmt: "bin", KK: "u64", VKind: "u64", Cache: "none"}, ops}
